@@ -3,7 +3,7 @@
    for those the input heap is a prefix of the output heap, whatever the outcome (also on failure). *)
 From Fiddle Require Import PyBase PySlice Sig ArgStore PyCall Heap Traverse Build Build_stmt
   Traverse_proofs Build_proofs Copy Tags Eq Transform C08Check Frame_proofs
-  History Diff DiffBuild FrameDiff_proofs Doc.
+  History Diff DiffBuild FrameDiff_proofs Doc Partial FramePartial_proofs.
 
 Theorem C17_frame : forall e h on_node,
   wf_b e h = true -> appends on_node ->
@@ -74,3 +74,15 @@ Theorem C17_serialize_frame : forall e h r s res,
   firstn (length h) (out s) = h /\ (length h <= length (out s))%nat.
 Proof. intros e h r s res Hwf Hroot Hrun. exact (frame_generic e h _ Hwf (copy_appends e true) r s res Hroot Hrun). Qed.
 Print Assumptions C17_serialize_frame.
+
+(* fdl.build of configurations holding Partials / ArgFactories (promotion of nested factories, the
+   wrapper layers of arg_factory.partial) only appends as well: the configuration is not modified *)
+Theorem C17_partial_build_disciplined : forall e, appends (pbuild_node e).
+Proof. exact pbuild_appends. Qed.
+Print Assumptions C17_partial_build_disciplined.
+
+Theorem C17_partial_build_frame : forall e h r s res,
+  wf_b e h = true -> root_ok h r -> pbuild e h r = (s, res) ->
+  firstn (length h) (out s) = h /\ (length h <= length (out s))%nat.
+Proof. exact pbuild_frame. Qed.
+Print Assumptions C17_partial_build_frame.
